@@ -25,12 +25,12 @@ CONFIG = {
         '13 centre elements x charge -2..+2 x radical x multisets of <= 3 bonds over 12 (order, neighbour) types'],
         'floors': {'evaluations': 60000, 'distinct_nontrivial': 20000, 'env.exhaustive': 50000, 'oracle.table-interpreter': 60000,
                    'oracle.rdkit-both-defined': 8000, 'totals.compared': 700, 'aromatic-atoms.compared': 3000,
-                   'totals.after-label-edit': 400}},
+                   'totals.after-label-edit': 400, 'bracket-states.listed': 1200}},
     'thorough': {'shards': 16, 'budget_s': 1800, 'maxbonds': 4, 'n_corpus': 4200, 'exhaustive_subspaces': [
         '13 centre elements x charge -2..+2 x radical x multisets of <= 4 bonds over 12 (order, neighbour) types'],
         'floors': {'evaluations': 300000, 'distinct_nontrivial': 100000, 'env.exhaustive': 230000,
                    'oracle.table-interpreter': 300000, 'oracle.rdkit-both-defined': 30000, 'totals.compared': 3000,
-                   'aromatic-atoms.compared': 15000, 'totals.after-label-edit': 1500}},
+                   'aromatic-atoms.compared': 15000, 'totals.after-label-edit': 1500, 'bracket-states.listed': 1200}},
 }
 SYM2Z = {}
 
@@ -272,6 +272,52 @@ def check_molecule(ctx, m, src, rng, strict_states=True):
                 ctx.note('rdkit totals failed on %s: %r' % (src, e))
 
 
+BRACKET_CENTRES = CENTRES + ['Al', 'Ge', 'Te', 'Sn', 'Ga']
+
+
+def bracket_states(ctx):
+    """the hydrogen count written in a bracket atom is kept whenever the element tables list a (non-radical) state with exactly that
+    count for the atom's charge and bonds - the reader may replace a written count only when no listed state has it"""
+    from chython import smiles
+    sym = {1: '', 2: '=', 3: '#'}
+    idx = 0
+    for csym in BRACKET_CENTRES:
+        cls = Element.from_symbol(csym)
+        if cls not in _rules_cache:
+            _rules_cache[cls] = table_rules(cls)
+        rules = _rules_cache[cls]
+        for k in range(0, 4):
+            for env in itertools.combinations_with_replacement(NEIGH[:9], k):
+                for charge in (-1, 0, 1):
+                    idx += 1
+                    if not ctx.mine(idx // 8):
+                        continue
+                    have = {}
+                    total = 0
+                    for o, sn in env:
+                        kk = (o, z_of(sn))
+                        have[kk] = have.get(kk, 0) + 1
+                        total += o
+                    listed = {h for need, h in rules.get((charge, False, total), ()) if all(have.get(q, 0) >= c for q, c in need.items())}
+                    for hs in sorted(listed):
+                        text = '[%s%s%s]%s' % (csym, 'H%d' % hs if hs > 1 else 'H' * hs, {0: '', 1: '+', -1: '-'}[charge],
+                                               ''.join('(%s%s)' % (sym[o], sn) for o, sn in env))
+                        ctx.evaluations += 1
+                        ctx.count('bracket-states.listed')
+                        try:
+                            m = smiles(text)
+                        except Exception as e:
+                            ctx.violation('listed-bracket-state-rejected/%s' % csym, '%s: %r' % (text, e), {'smiles': text})
+                            continue
+                        a = m._atoms[1]
+                        flagged = bool(m._meta and (1 in (m._meta.get('chython_implicit_mismatch') or {}) or 1 in (m._meta.get('chython_radicalized_atoms') or ())))
+                        if a.implicit_hydrogens != hs or a.is_radical or flagged:
+                            ctx.violation('listed-bracket-state-not-kept/%s' % csym,
+                                          '%s: the tables list %s charge %+d bonds %s with %d H; read as H=%r radical=%r%s'
+                                          % (text, csym, charge, list(env), hs, a.implicit_hydrogens, a.is_radical, ' (written count overridden)' if flagged else ''),
+                                          {'smiles': text})
+
+
 def sums_over_atoms(m):
     counts = {}
     hs = 0
@@ -335,6 +381,7 @@ def worker(ctx):
     _random.seed(ctx.seed + ctx.shard)
     from rdkit import RDLogger
     RDLogger.DisableLog('rdApp.*')
+    bracket_states(ctx)
     idx = 0
     for csym in CENTRES:
         for k in range(0, cfg['maxbonds'] + 1):
